@@ -468,8 +468,33 @@ func genPending(prop string, seed uint64, run int, tier string) *Scenario {
 	}
 	sc.Tasks = []TaskScript{{Name: "world0", Role: "world", Ops: w}}
 	nclients := 1 + g.r.Intn(3)
+	// a few runs: thousands of records without a name (16 bytes each, 4096 of
+	// them fill the read buffer) are queued before the reader gets to run, so
+	// one read hands the library more records than any per-read batch or
+	// scratch capacity it may have; the control calls follow once everybody
+	// else is blocked (seed C05-i)
+	huge := g.chance(map[string]float64{"thorough": 0.01}[tier] + 0.003)
+	if huge {
+		var ns []Op
+		for _, op := range sc.Setup {
+			if op.K == OpNewWatcher {
+				ns = append(ns, Op{K: OpCreate, P: "e/nlA"}, Op{K: OpCreate, P: "e/nlB"})
+			}
+			ns = append(ns, op)
+		}
+		sc.Setup = append(ns, Op{K: OpAdd, P: "e/nlA"}, Op{K: OpAdd, P: "e/nlB"})
+		sc.Cfg.Weights = map[string]float64{"reader": 0.001, "consumer": 1}
+		sc.Cfg.QueueLimit = 0
+		sc.Cfg.MaxSteps = 400000
+	}
 	for c := 0; c < nclients; c++ {
 		var ops []Op
+		if huge && c == 0 {
+			for i, nb := 0, 4100+g.r.Intn(300); i < nb; i++ {
+				ops = append(ops, Op{K: OpWrite, P: []string{"e/nlA", "e/nlB"}[i%2], N: 1})
+			}
+			ops = append(ops, Op{K: OpQuiesce})
+		}
 		for k := 1 + g.r.Intn(5); k > 0; k-- {
 			ops = append(ops, []Op{{K: OpWatchList}, {K: OpAdd, P: "e"}, {K: OpRemove, P: "d"}, {K: OpAdd, P: "d"}, {K: OpRemove, P: "d/f"}, {K: OpAdd, P: "d/g"}, {K: OpYield}}[g.r.Intn(7)])
 		}
